@@ -1083,8 +1083,13 @@ def falsify_C19(ctx):
         elif what == "es_fifo":
             rb_ = rbs[0]
             if ra != rb_ and "panic" not in (ra, rb_):
-                # finding K3: the event-source analysis also examines offset A = L
-                cex.append({"kind": "event_source_ne_fifo", "op": a, "impl": ra, "fifo_op": b, "fifo_impl": rb_})
+                # finding K3: the event-source analysis also examines offset A = L.  The difference
+                # counts as K3 only if BOTH real results equal their own naive Spec (then it is the two
+                # definitions that differ, not the code)
+                nv_es, nv_ff = common.run_parallel(common.lean_bin(), ["nv_" + a, "nv_" + (b[0] if isinstance(b, list) else b)])
+                cex.append({"kind": "event_source_ne_fifo", "op": a, "impl": ra, "fifo_op": b, "fifo_impl": rb_,
+                            "both_equal_their_naive_spec": (ra == nv_es and rb_ == nv_ff),
+                            "naive_event_source": nv_es, "naive_fifo": nv_ff})
             elif len(samples) < 4 and ra.startswith("ok") and ra != "ok 0":
                 samples.append({"what": what, "op": a, "impl": ra, "fifo": rb_})
         else:
